@@ -78,3 +78,11 @@ check('C05', 'symbolic execution of the MIR of Zerv::apply_component_processing 
 for e in ENGINES:
     if e['name'] in ('msym', 'native-driver'):
         e['serves_properties'] = sorted(set(e['serves_properties']) | {'C05'})
+
+check('C04', 'symbolic execution of the MIR of BranchRulesConfig::apply_branch_rules / BranchRules::* / hash_int_function with the branch name, flags and hash as solver variables, plus Kani/CBMC on BranchRule::matches over arbitrary ASCII bytes',
+      'PARTIAL. Decided: the rule-resolution half of the statement - explicit flags else first matching rule (exact, `prefix/*` only under `prefix/`, `*`), number = explicit rule number, else first all-digit path segment after the prefix (u32), else none (hash fallback) - for five rule sets incl. the GitFlow defaults, every branch name up to a length bound and structured long names; and the branch-hash contract (<= length digits, no leading zero, deterministic, accepted as u32 for every length 1..10; SipHash as an uninterpreted function). Kani proves matches() on all <= 5-byte ASCII names on the compiled code. NOT decided: the composed tag x distance x dirty -> patch/post/dev law, which runs through Tera rendering and a RON hand-over between two pipeline passes (no MIR in the crate).',
+      'trusted: python std models, uninterpreted-hash model (a real witness is searched natively before reporting), z3, CBMC. Known finding recorded: hash length 10 can exceed u32.',
+      'DESIGN.md §7 C04', engine='msym+kani')
+for e in ENGINES:
+    if e['name'] in ('msym', 'native-driver', 'kani'):
+        e['serves_properties'] = sorted(set(e['serves_properties']) | {'C04'})
